@@ -64,7 +64,8 @@ class error_997_visitor(error_visitor.error_visitor):
         #ISA*00*          *00*          *ZZ*ENCOUNTER      *ZZ*00GR           *030425*1501*U*00401*000065350*0*T*:~
         self.isa_control_num = ('%s%s' % (time.strftime('%y%m%d'),
                                           time.strftime('%H%M')))[1:]
-        icvn = seg.get_value('ISA12')
+        # This document is a 4010 997: its own interchange version, whatever the (last) source ISA says
+        icvn = '00401'
         isa_seg = pyx12.segment.Segment('ISA*00*          *00*          ',
                                         self.seg_term, self.ele_term, self.subele_term)
         isa_seg.append(self._clean(seg.get_value('ISA07'), 2))
